@@ -62,7 +62,11 @@ Inductive loc :=
 | LStChecked (s : static_id)
 | LStValue (s : static_id)
 | LRefcount                  (* hwloc_components_users *)
-| LRegistry.                 (* hwloc_disc_components, xml callbacks, finalize cbs, hwloc_components_verbose *)
+| LRegistry                  (* hwloc_disc_components, finalize cbs, hwloc_components_verbose *)
+| LXmlBackend.               (* topology-xml.c file-scope statics hwloc_libxml_callbacks / hwloc_nolibxml_callbacks: written by
+                                register/reset under the mutex when users crosses 0, read without a lock by every XML
+                                import/export/free_xmlbuffer, and WRITTEN WITHOUT A LOCK by the "libxml2 unusable" fallback
+                                (`if (ret < 0 && errno == ENOSYS) { hwloc_libxml_callbacks = NULL; goto retry; }`) *)
 
 Definition loc_eqb (a b : loc) : bool :=
   match a, b with
@@ -70,7 +74,7 @@ Definition loc_eqb (a b : loc) : bool :=
   | LDistFlags t d, LDistFlags u e | LDistObjs t d, LDistObjs u e
   | LMaFlags t d, LMaFlags u e | LMaCache t d, LMaCache u e => Nat.eqb t u && Nat.eqb d e
   | LStChecked s, LStChecked r | LStValue s, LStValue r => static_eqb s r
-  | LRefcount, LRefcount | LRegistry, LRegistry => true
+  | LRefcount, LRefcount | LRegistry, LRegistry | LXmlBackend, LXmlBackend => true
   | _, _ => false
   end.
 
@@ -183,8 +187,9 @@ Record topo := mkTopo {
 Record glob := mkGlob {
   g_checked : list static_id;   (* statics whose `checked` is already 1 *)
   g_envset : list static_id;    (* statics whose environment variable is set (the value is then written at first use) *)
-  g_libxml : bool;              (* a libxml backend is registered and not disabled by the environment *)
-  g_users : nat }.              (* hwloc_components_users *)
+  g_libxml : bool;              (* hwloc_libxml_callbacks != NULL (and not disabled by the environment): XML goes through libxml2 *)
+  g_users : nat;                (* hwloc_components_users *)
+  g_avail : bool }.             (* a libxml component is compiled in: what registration sets hwloc_libxml_callbacks to *)
 
 Record state := mkState { s_topos : list (option topo); s_glob : glob }.
 
@@ -254,7 +259,7 @@ Fixpoint mas_need_refresh_from (t a : nat) (ms : list mattr) : list mattr * list
 (* `static int checked` pattern:  if (!checked) { env = getenv(..); if (env) value = ..; checked = 1; } return value; *)
 Definition static_use (s : static_id) (g : glob) : glob * list ev :=
   if mem_static s (g_checked g) then (g, [Rd (LStChecked s); Rd (LStValue s)])
-  else (mkGlob (s :: g_checked g) (g_envset g) (g_libxml g) (g_users g),
+  else (mkGlob (s :: g_checked g) (g_envset g) (g_libxml g) (g_users g) (g_avail g),
         Rd (LStChecked s) :: (if mem_static s (g_envset g) then [Wr (LStValue s) 1] else [])
           ++ [Wr (LStChecked s) 1; Rd (LStValue s)]).
 
@@ -264,7 +269,7 @@ Definition libxml_init_once (g : glob) : glob * list ev :=
   if mem_static SLibxmlInit (g_checked g) then (g, [Rd (LStChecked SLibxmlInit)])
   else
     let '(g1, e1) := static_use SXmlVerbose g in
-    (mkGlob (SLibxmlInit :: g_checked g1) (g_envset g1) (g_libxml g1) (g_users g1),
+    (mkGlob (SLibxmlInit :: g_checked g1) (g_envset g1) (g_libxml g1) (g_users g1) (g_avail g1),
      Rd (LStChecked SLibxmlInit) :: e1
        ++ (if mem_static SLibxmlInit (g_envset g) then [Wr (LStValue SLibxmlInit) 1] else [])
        ++ [Wr (LStChecked SLibxmlInit) 1]).
@@ -314,7 +319,7 @@ Definition cons_run (t : nat) (tp : topo) (g : glob) (c : cop) : topo * glob * r
       (tp, g, [], [Rd (LTree t)])
   | CExportSynth true =>
       if mem_static SSynthWarned (g_checked g) then (tp, g, [], [Rd (LTree t); Rd (LStChecked SSynthWarned)])
-      else (tp, mkGlob (SSynthWarned :: g_checked g) (g_envset g) (g_libxml g) (g_users g), [],
+      else (tp, mkGlob (SSynthWarned :: g_checked g) (g_envset g) (g_libxml g) (g_users g) (g_avail g), [],
             [Rd (LTree t); Rd (LStChecked SSynthWarned); Wr (LStChecked SSynthWarned) 1])
   | CCpukinds => (tp, g, [], [Rd (LTree t); Rd (LCpukinds t)])
   | CDistRelease => (tp, g, [], [])
@@ -338,7 +343,7 @@ Definition cons_run (t : nat) (tp : topo) (g : glob) (c : cop) : topo * glob * r
       let '(g1, e2) := static_use SNolibxmlExport g in
       let '(g2, e3) := (if g_libxml g then libxml_init_once g1 else (g1, [])) in
       (set_dists tp ds, g2, [length ds],
-       Rd (LTree t) :: e1 ++ e2 ++ e3 ++ [Rd (LTree t); Rd (LCpukinds t)]
+       Rd (LTree t) :: e1 ++ e2 ++ e3 ++ [RdL LXmlBackend; Rd (LTree t); Rd (LCpukinds t)]
          ++ flat_map (fun d => [Rd (LDistObjs t (d_id d))]) ds
          ++ flat_map (fun a => [Rd (LMaFlags t a); Rd (LMaCache t a)]) (seq 0 (length (t_mattrs tp))))
   end.
@@ -420,7 +425,12 @@ Record loadcfg := mkCfg {
   c_dists : list nat;         (* nbobjs of every distances structure the backend added *)
   c_extra_mattrs : nat;       (* attributes registered by the backend beyond the predefined ones *)
   c_bind : option (option (list nat));
-  c_xml : bool }.             (* the source is XML (hwloc_topology_set_xml / set_xmlbuffer) *)
+  c_xml : bool;               (* the source is XML (hwloc_topology_set_xml / set_xmlbuffer) *)
+  c_fails : bool;             (* the source is rejected whatever the backend (malformed document, bad synthetic
+                                 description, missing file): set_*/load return -1, the topology stays unloaded *)
+  c_needs_libxml : bool;      (* a well-formed document only a full XML parser accepts (single-quoted attributes,
+                                 comments, character references, entities ...): rejected by the nolibxml backend *)
+  c_enosys : bool }.          (* libxml2's backend_init fails with ENOSYS (unusable library): the fallback fires *)
     (* None: neither HWLOC_TOPOLOGY_FLAG_RESTRICT_TO_CPUBINDING nor _MEMBINDING is set.
        Some None: a flag is set but the binding was not obtained or the restrict was rejected.
        Some (Some lives): hwloc_topology_restrict(binding) ran after the refreshes of load.
@@ -459,12 +469,19 @@ Definition load_run (t : nat) (c : loadcfg) : topo * list ev :=
 
 (* hwloc_xml_component_instantiate (at set_xml time): hwloc_nolibxml_import(), then the libxml backend's
    hwloc_libxml2_init_once() *)
+Definition set_libxml (g : glob) (b : bool) : glob := mkGlob (g_checked g) (g_envset g) b (g_users g) (g_avail g).
 Definition load_statics (c : loadcfg) (g : glob) : glob * list ev :=
   if c_xml c then
     let '(g1, e1) := static_use SNolibxmlImport g in
     let '(g2, e2) := (if g_libxml g then libxml_init_once g1 else (g1, [])) in
-    (g2, e1 ++ e2)
+    if g_libxml g && c_enosys c
+    then (set_libxml g2 false, e1 ++ [RdL LXmlBackend] ++ e2 ++ [Wr LXmlBackend 0])    (* hwloc_libxml_callbacks = NULL; goto retry *)
+    else (g2, e1 ++ [RdL LXmlBackend] ++ e2)
   else (g, []).
+(* does set_*/load fail?  depends on the process-wide backend choice *)
+Definition load_fails (c : loadcfg) (g : glob) : bool :=
+  c_fails c || (c_xml c && c_needs_libxml c && negb (g_libxml g && negb (c_enosys c))).
+
 
 Inductive op :=
 | OInit (t : nat)                 (* hwloc_topology_init: slot t must be free *)
@@ -476,6 +493,12 @@ Inductive op :=
 Definition op_topo (o : op) : nat :=
   match o with OInit t | OLoad t _ | ODestroy t | OMod t _ | OCons t _ => t end.
 Definition is_cons (o : op) : bool := match o with OCons _ _ => true | _ => false end.
+(* the only modelled call that writes a process-wide static AFTER its first use and outside the mutex is the
+   XML load whose libxml2 backend reports ENOSYS; every other call leaves the backend choice alone *)
+Definition backend_stable (o : op) : bool :=
+  match o with OLoad _ c => negb (c_xml c && c_enosys c) | _ => true end.
+(* the process-wide facts the RESULT of a call depends on (the `checked` statics only cache constants) *)
+Definition glob_consistent (g : glob) : Prop := g_libxml g = g_avail g.
 
 Definition get_topo (s : state) (t : nat) : option topo :=
   match nth_error (s_topos s) t with Some (Some tp) => Some tp | _ => None end.
@@ -486,7 +509,13 @@ Fixpoint set_slot (l : list (option topo)) (t : nat) (x : option topo) : list (o
   | S k, [] => None :: set_slot [] k x
   | S k, y :: r => y :: set_slot r k x
   end.
-Definition set_users (g : glob) (n : nat) : glob := mkGlob (g_checked g) (g_envset g) (g_libxml g) n.
+Definition set_users (g : glob) (n : nat) : glob := mkGlob (g_checked g) (g_envset g) (g_libxml g) n (g_avail g).
+(* hwloc_components_init / _fini: registration (users 0 -> 1) sets the backend pointers, the reset (1 -> 0) clears
+   them; as nothing can use XML while no topology exists the two are merged: crossing 0 restores g_avail *)
+Definition init_glob (g : glob) : glob :=
+  mkGlob (g_checked g) (g_envset g) (if g_users g =? 0 then g_avail g else g_libxml g) (S (g_users g)) (g_avail g).
+Definition fini_glob (g : glob) : glob :=
+  mkGlob (g_checked g) (g_envset g) (if g_users g =? 1 then g_avail g else g_libxml g) (pred (g_users g)) (g_avail g).
 
 Definition empty_topo : topo := mkTopo false false false false [] 0 [].
 
@@ -499,14 +528,17 @@ Definition run_op (s : state) (o : op) : state * result * list ev :=
       | None =>
           (* hwloc_components_init under the mutex: users++ , registration when it was 0 *)
           let g := s_glob s in
-          (mkState (set_slot (s_topos s) t (Some empty_topo)) (set_users g (S (g_users g))), [1],
-           [RdL LRefcount; WrL LRefcount (S (g_users g))] ++ (if g_users g =? 0 then [WrL LRegistry 1] else [])
+          (mkState (set_slot (s_topos s) t (Some empty_topo)) (init_glob g), [1],
+           [RdL LRefcount; WrL LRefcount (S (g_users g))] ++ (if g_users g =? 0 then [WrL LRegistry 1; WrL LXmlBackend 1] else [])
              ++ [Wr (LTree t) 0])
       end
   | OLoad t c =>
       match get_topo s t with
       | Some tp => if t_loaded tp then (s, [0], [Rd (LTree t)])      (* EBUSY *)
                    else let '(g', e0) := load_statics c (s_glob s) in
+                        if load_fails c (s_glob s)
+                        then (mkState (s_topos s) g', [0], e0 ++ [Rd (LTree t); Wr (LTree t) 0])
+                        else
                         let '(tp', e) := load_run t c in
                         (mkState (set_slot (s_topos s) t (Some tp')) g', [1], e0 ++ e)
       | None => (s, [0], [])
@@ -515,11 +547,11 @@ Definition run_op (s : state) (o : op) : state * result * list ev :=
       match get_topo s t with
       | Some tp =>
           let g := s_glob s in
-          (mkState (set_slot (s_topos s) t None) (set_users g (pred (g_users g))), [1],
+          (mkState (set_slot (s_topos s) t None) (fini_glob g), [1],
            Wr (LTree t) 0 :: Wr (LDistList t) 0 :: Wr (LCpukinds t) 0
              :: flat_map (fun d => [Wr (LDistObjs t (d_id d)) 0; Wr (LDistFlags t (d_id d)) 0]) (t_dists tp)
              ++ flat_map (fun a => [Wr (LMaCache t a) 0; Wr (LMaFlags t a) 0]) (seq 0 (length (t_mattrs tp)))
-             ++ [RdL LRefcount; WrL LRefcount (pred (g_users g))] ++ (if g_users g =? 1 then [WrL LRegistry 0] else []))
+             ++ [RdL LRefcount; WrL LRefcount (pred (g_users g))] ++ (if g_users g =? 1 then [WrL LRegistry 0; WrL LXmlBackend 0] else []))
       | None => (s, [0], [])
       end
   | OMod t m =>
